@@ -51,6 +51,9 @@ struct Registration {
 pub struct Timer {
     registration: Option<Registration>,
     deadline: Option<Instant>,
+    // Whether the event loop currently has this timer registered (enabled). `registration` alone cannot
+    // tell: a registered timer without a representable deadline has none either.
+    registered: bool,
 }
 
 impl Timer {
@@ -73,6 +76,7 @@ impl Timer {
         Timer {
             registration: None,
             deadline,
+            registered: false,
         }
     }
 
@@ -148,6 +152,7 @@ impl EventSource for Timer {
     }
 
     fn register(&mut self, poll: &mut Poll, token_factory: &mut TokenFactory) -> crate::Result<()> {
+        self.registered = true;
         // Only register a deadline if we haven't overflowed.
         if let Some(deadline) = self.deadline {
             let wheel = poll.timers.clone();
@@ -168,11 +173,16 @@ impl EventSource for Timer {
         poll: &mut Poll,
         token_factory: &mut TokenFactory,
     ) -> crate::Result<()> {
+        // Updating a disabled timer must not arm it: only `enable()` does.
+        if !self.registered {
+            return Ok(());
+        }
         self.unregister(poll)?;
         self.register(poll, token_factory)
     }
 
     fn unregister(&mut self, poll: &mut Poll) -> crate::Result<()> {
+        self.registered = false;
         if let Some(registration) = self.registration.take() {
             poll.timers.borrow_mut().cancel(registration.counter);
         }
